@@ -40,6 +40,36 @@ def extract_quantity_items(src, where):
             if len(qpos) > 1:
                 raise Untranslatable(f"{where}:{attrs[qpos[1]][2]}: two #[quantity] attributes on one item")
             q = qpos[0]
+            # an item compiled conditionally: the tables describe the configuration the correspondence harness is
+            # built in — every quantity feature, `std` and `serde` enabled — so a definition gated out there is not
+            # a definition of that build (which configurations change WHAT is defined is the business of C19, whose
+            # inventory of conditional-compilation sites lists the gate).  A gate on the amount back-end cannot be
+            # decided here, the tables being shared by both back-ends.
+            gated_out = False
+            for a in attrs:
+                if a[0] == ["cfg"] and a[1] is not None:
+                    try:
+                        import translate_tables as _tt
+                        e = _tt.cfg_expr(a[1])
+                    except Exception as ex:  # noqa: BLE001
+                        raise Untranslatable(f"{where}:{a[2]}: cfg on a quantity definition not understood: {ex}")
+
+                    def ev(x):
+                        if x[0] == "feature":
+                            if x[1] == "fpdec":
+                                raise Untranslatable(f"{where}:{a[2]}: a quantity definition gated on the amount back-end")
+                            return True
+                        if x[0] == "not":
+                            return not ev(x[1])
+                        if x[0] == "all":
+                            return all(ev(y) for y in x[1])
+                        if x[0] == "any":
+                            return any(ev(y) for y in x[1])
+                        if x[0] == "flag":
+                            return x[1] != "test"
+                        raise Untranslatable(f"{where}:{a[2]}: cfg predicate {x!r} on a quantity definition")
+                    if not ev(e):
+                        gated_out = True
             for k, a in enumerate(attrs[:q]):
                 if a[0] in (["unit"], ["ref_unit"]):
                     raise Untranslatable(f"{where}:{a[2]}: #[{a[0][0]}] before #[quantity]")
@@ -78,6 +108,9 @@ def extract_quantity_items(src, where):
                     c = matching(toks, m)
                     has_fields = c > m + 1
                     m = c + 1
+            if gated_out:
+                i = m if m > j else j
+                continue
             items.append(dict(
                 where=where, line=attrs[q][2], name=name, is_struct=is_struct,
                 has_generics=has_generics, has_fields=has_fields,
